@@ -133,3 +133,45 @@ func VH_C16_fast_vs_slow() {
 	}
 	vObserve("n", n)
 }
+
+// ---- (c') the reader's two paths on canonical blocks of every length ---------------------
+
+//verif:harness prop=C16 quick=8 thorough=16 merge=concrete
+//verif:bounds the ORIGIN field reader (makeGenbankOriginParser: fast validation, slow line-by-line fallback) on the block NewOrigin produces for every length 0..130 (quick) / 0..250 (thorough) with symbolic printable residues, in three spellings: LF (fast path), CRLF line ends and a trailing blank on every line (slow path): all accepted, same residues
+func VH_C16_reader_paths() {
+	ns := 8 + 8*vTier()
+	max := 130 + 120*vTier()
+	s := vShard(ns)
+	cnt := (max + 1 - s + ns - 1) / ns
+	n := s + ns*vChoice("n", cnt)
+	p := vBytesIn("p", n, 33, 126)
+	blk := NewOrigin(p).Buffer
+	spelling := vChoice("spelling", 3)
+	var text []byte
+	text = append(text, []byte("ORIGIN      \n")...)
+	for _, c := range blk {
+		if c == '\n' {
+			switch spelling {
+			case 1:
+				text = append(text, '\r')
+			case 2:
+				text = append(text, ' ')
+			}
+		}
+		text = append(text, c)
+	}
+	text = append(text, []byte("//\n")...)
+	gb := &GenBank{Origin: NewOrigin(nil)}
+	st := pars.FromBytes(text)
+	var res pars.Result
+	err := makeGenbankOriginParser(n)(gb, 12)(st, &res)
+	vCover("read")
+	vAssert("canonical-block-accepted", err == nil)
+	if err != nil {
+		return
+	}
+	got := gb.Origin.Bytes()
+	vAssert("same-residues", vSameBytes16(got, p))
+	vAssert("length-without-decoding", (&Origin{append([]byte{}, gb.Origin.Buffer...), gb.Origin.Parsed}).Len() == n)
+	vObserve("n", n)
+}
